@@ -1493,7 +1493,7 @@ def corr_std_rules(ck):
                                               inp, {n: (hs[n], hx[n]) for n in hs if hs[n] != hx[n]}, 'equal counts', 'rebuild through add_atom / add_bond', replay_py=rp)
                 except Exception:
                     ck.count('std-rules:rebuild raised')
-            if len(cases) < (260 if ck.tier == 'quick' else 4000):
+            if len(cases) < (180 if ck.tier == 'quick' else 4000):
                 cases.append(f'(let g := {coqmol.mol_term(m)} in history_case g {lst(touched, zraw)} {b(loc)})')
                 meta.append((tag, call, touched, str(m)))
     ok, failing, log = coqcases.run_cases('c04s', IMPORTS_X, cases, extra=EXTRA, shard=150)
@@ -2105,7 +2105,7 @@ def search(ck):
     # every other public operation that edits charges / bonds / atoms in place (neutralisation, charge standardisation, salts, coordinate
     # bonds, resonance, isotopes): afterwards every stored count must be a valence state, and - when the input's counts were fresh and the
     # result has localised bonds - the result rebuilt from scratch must carry the same counts
-    ops_pool = OPS_EXTRA + STD_COVALENT + corpus.sample(corpus.lipo(), 30 if ck.tier == 'quick' else 600, ck.seed, 'c04ops')
+    ops_pool = OPS_EXTRA + STD_COVALENT + corpus.sample(corpus.lipo(), 20 if ck.tier == 'quick' else 600, ck.seed, 'c04ops')
     for smi in ops_pool:
         try:
             m0 = smiles(smi)
